@@ -103,6 +103,8 @@ def shards(tier, seed):
         for shape in ((300, 4096), (33000, 40)):
             for cross in (True, False):
                 out.append({"part": "D", "backend": backend, "K": shape[0], "L": shape[1], "cross": cross, "seed": seed})
+    for cross in (True, False):  # CUDA host wrappers with more than one block of threads (K=300 > 256)
+        out.append({"part": "D", "backend": "cuda", "K": 300, "L": 64, "cross": cross, "seed": seed})
     if tier == "thorough":
         for backend in ("numba", "numpy"):
             for L in (64, 257, 1024, 4096):
